@@ -53,7 +53,7 @@ Theorem C09_src_sub_image_new_is_model : forall img area, size_i32 (ir_size img)
 Proof. exact src_sub_image_new_eq. Qed.
 
 Theorem C09_src_sub_image_draw_is_model : forall s,
-  img_ok (SubImage_ImageRaw_parent s) -> size_i32 (sz (SubImage_ImageRaw_area s)) ->
+  src_img_ok (SubImage_ImageRaw_parent s) -> size_i32 (sz (SubImage_ImageRaw_area s)) ->
   px (tl (SubImage_ImageRaw_area s)) <= i32_max -> py (tl (SubImage_ImageRaw_area s)) <= i32_max ->
   let img := SubImage_ImageRaw_parent s in
   let r := src_SubImage_ImageRaw_draw (raw_load (ir_bpp img) (ir_alt img)) (ir_bpp img) log_fill s [] in
@@ -61,7 +61,7 @@ Theorem C09_src_sub_image_draw_is_model : forall s,
 Proof. exact src_sub_image_draw_eq. Qed.
 
 Theorem C09_src_sub_image_draw_sub_image_is_model : forall s area,
-  img_ok (SubImage_ImageRaw_parent s) ->
+  src_img_ok (SubImage_ImageRaw_parent s) ->
   let a := translate_rect area (tl (SubImage_ImageRaw_area s)) in
   size_i32 (sz a) -> px (tl a) <= i32_max -> py (tl a) <= i32_max ->
   let img := SubImage_ImageRaw_parent s in
